@@ -416,7 +416,7 @@ func (w *World) boundary(ctx sdk.Context, l *Ledger, dt, ns int64, fail func(a, 
 			changed = last.Err != e || last.P[0].Cmp(p[0]) != 0 || last.P[1].Cmp(p[1]) != 0
 		}
 		if touched && !changed && w.Pools[w.Pairs[pi].Pool].NPairs > 1 {
-			// e.g. four assets, swap along bar/foo: baz/qux gets a new record with the old prices
+			// e.g. four assets, swap along bar/foo: baz/foobar gets a new record with the old prices
 			w.R.Vacuity["multi_asset_pool_record_written_for_pair_with_unchanged_price"]++
 		}
 		if changed || touched {
